@@ -244,3 +244,66 @@ func c06Magnitude(v int64) string {
 	}
 	return "up-to-2^53"
 }
+
+// VerifC06WideInts: integers at the edge of the 64-bit range, in decimal and hexadecimal spelling with a symbolic
+// leading / trailing digit: inside the range the JSON number is the exact value, outside it encoding fails —
+// it must not wrap to another number.
+func VerifC06WideInts() {
+	var text string
+	var val int64
+	inRange := true
+	switch verifChoice("spelling", 4) {
+	case 0: // 0x d fffffffffffffff / 0x d 000000000000000
+		d := verifStrN("d", 1, "09af")
+		var dv int64
+		if verifConcreteBool(d[0] <= '9') {
+			dv = int64(d[0] - '0')
+		} else {
+			dv = int64(d[0]-'a') + 10
+		}
+		low := verifChoice("low", 2)
+		pre := verifPick("prefix", "0x", "0X")
+		if low == 0 {
+			text, val = pre+d+"000000000000000", dv<<60
+		} else {
+			text, val = pre+d+"fffffffffffffff", dv<<60|0xfffffffffffffff
+		}
+		inRange = verifConcreteBool(dv < 8)
+	case 1: // 922337203685477580 d
+		d := verifStrN("d", 1, "09")
+		dv := int64(d[0] - '0')
+		text = "922337203685477580" + d
+		inRange = verifConcreteBool(dv <= 7)
+		val = 9223372036854775800 + dv
+	case 2: // -922337203685477580 d
+		d := verifStrN("d", 1, "09")
+		dv := int64(d[0] - '0')
+		text = "-922337203685477580" + d
+		inRange = verifConcreteBool(dv <= 8)
+		val = -9223372036854775800 - dv
+	default: // 0o d 777777777777777777777 (22 octal digits: d=0 in range, d>=1 beyond 2^63)
+		d := verifStrN("d", 1, "07")
+		dv := int64(d[0] - '0')
+		text = "0o" + d + "777777777777777777777"
+		inRange = verifConcreteBool(dv == 0)
+		val = 0x7fffffffffffffff
+	}
+	doc := vDoc(vMap(vStr("k"), vInt(text)))
+	b, err := doc.MarshalJSON()
+	verifObserve("text", text)
+	if !inRange {
+		verifCover("C06/wide/out-of-range")
+		if err == nil {
+			verifObserve("json", string(b))
+		}
+		verifAssert(err != nil, "C06/integer-outside-int64-encoded-as-another-number")
+		return
+	}
+	verifAssert(err == nil, "C06/encode-error wide-int")
+	if err != nil {
+		return
+	}
+	verifObserve("json", string(b))
+	verifAssert(verifEqStr(string(b), "{S(k):I("+verifItoa(val)+")}"), "C06/json-value-differs-from-yaml-value wide-int")
+	verifCover("C06/wide/end")
+}
